@@ -99,7 +99,7 @@ Lemma chained_after eps : zq 0 < eps -> forall tpl now,
   chained_t eps now tpl -> Forall (fun st => zq 0 <= dur_t st) tpl -> Forall (fun st => now <= ps_start st) tpl.
 Proof.
   intros He. induction tpl as [|st r IH]; intros now C D; [constructor|].
-  destruct C as [C1 C2]. inversion D as [|? ? D1 D2]; subst. constructor.
+  cbn [chained_t] in C. destruct C as [C1 C2]. pose proof (Forall_inv D) as D1; pose proof (Forall_inv_tail D) as D2. cbn beta in D1. constructor.
   - rewrite C1. apply Qcle_refl.
   - pose proof (next_now_gt eps now (ps_dur st) He D1) as G.
     specialize (IH _ C2 D2). eapply Forall_impl; [|exact IH]. cbn beta. intros x Hx.
@@ -114,11 +114,11 @@ Lemma chained_ordered eps : zq 0 < eps -> forall tpl now,
   ForallOrdPairs (fun a b => end_t a < ps_start b) tpl.
 Proof.
   intros He. induction tpl as [|st r IH]; intros now C D; [constructor|].
-  destruct C as [C1 C2]. inversion D as [|? ? D1 D2]; subst. constructor; [|exact (IH _ C2 D2)].
-  pose proof (next_now_gt eps (ps_start st) (ps_dur st) He D1) as G.
+  cbn [chained_t] in C. destruct C as [C1 C2]. pose proof (Forall_inv D) as D1; pose proof (Forall_inv_tail D) as D2. cbn beta in D1. constructor; [|exact (IH _ C2 D2)].
+  pose proof (next_now_gt eps now (ps_dur st) He D1) as G.
   pose proof (chained_after eps He r _ C2 D2) as A.
-  eapply Forall_impl; [|exact A]. cbn beta. intros x Hx. unfold end_t, dur_t.
-  unfold Qclt, Qcle in *. lra.
+  eapply Forall_impl; [|exact A]. cbn beta. intros x Hx. unfold end_t, dur_t. rewrite C1.
+  eapply Qclt_le_trans; [exact G | exact Hx].
 Qed.
 
 (* ------------------------------------------------------------------ the chosen duration *)
@@ -137,7 +137,7 @@ Proof.
   destruct (d_lopen d), (d_ropen d); cbn [orb choose_dur]; intros E N; inversion E; subst dt; qb.
   - destruct (mid_lt l h N) as [A B]. apply andb_true_iff. split; apply qc_ltb_lt; assumption.
   - destruct (mid_lt l h N) as [A B]. apply andb_true_iff. split; [apply qc_ltb_lt; assumption|].
-    apply qc_leb_le. unfold Qclt, Qcle in *. lra.
+    apply qc_leb_le. apply Qclt_le_weak. exact B.
   - apply andb_true_iff. split; [apply qc_leb_le, Qcle_refl | apply qc_ltb_lt; assumption].
   - apply andb_true_iff. split; [apply qc_leb_le, Qcle_refl | apply qc_leb_le; assumption].
 Qed.
@@ -179,4 +179,21 @@ Lemma back_plan_first sc TP P' eps pi now s st r :
 Proof.
   destruct pi as [|[aid args] rest]; intros H; [cbn in H; discriminate|].
   destruct (back_plan_cons _ _ _ _ _ _ _ _ _ _ H) as (a' & s' & r' & od & _ & _ & E & _). inversion E. reflexivity.
+Qed.
+
+(* the part of the whole-plan statement that holds for every input *)
+Lemma back_plan_partial sc TP P' eps s0 pi tpl :
+  zq 0 < eps ->
+  back_plan sc TP P' eps (zq 0) s0 pi = Some tpl ->
+  (forall st dt, In st tpl -> ps_dur st = Some dt -> zq 0 < dt) ->
+  plan_wf TP tpl = true /\ seq_of_t tpl = pi /\ chained_t eps (zq 0) tpl /\
+  ForallOrdPairs (fun a b => end_t a < ps_start b) tpl /\ durs_ok sc TP P' s0 pi tpl.
+Proof.
+  intros He H Pos.
+  split; [exact (back_plan_wf _ _ _ _ _ _ _ _ H)|]. split; [exact (back_plan_seq _ _ _ _ _ _ _ _ H)|].
+  pose proof (back_plan_chained _ _ _ _ _ _ _ _ H) as C. split; [exact C|].
+  split; [|exact (back_plan_durs_ok _ _ _ _ _ _ _ _ H)].
+  apply (chained_ordered eps He tpl (zq 0) C). apply Forall_forall. intros st Hin. unfold dur_t.
+  destruct (ps_dur st) as [dt|] eqn:E; [|apply Qcle_refl].
+  apply Qclt_le_weak. exact (Pos st dt Hin E).
 Qed.
